@@ -158,7 +158,9 @@ def _parse_list_item(
                 state.cursor = m.end() + 1
                 break
 
-            if tok_type == "list":
+            if tok_type == "list" or tok_type == "block_quote":
+                # the caller's loop parses what follows; parsing a quote from here would recurse
+                # once per alternation of quote and list
                 break
 
             tok_index = len(state.tokens)
